@@ -693,6 +693,13 @@ func (cx *Ctx) checkBCE(r *Report, scope map[*ssa.Function]bool) {
 		nUser++
 		ln, _ := strconv.Atoi(m[2])
 		okProof, why := cx.bceLocalProof(s.node, s.fn)
+		if ix, isIx := s.node.(*ast.IndexExpr); isIx && !okProof {
+			if ok2, why2 := cx.bceSSAProof(ix); ok2 {
+				okProof, why = true, why2
+			} else {
+				why += "; " + why2
+			}
+		}
 		okey := fmt.Sprintf("%s:%s", s.fn.Name.Name, types.ExprString(s.node.(ast.Expr)))
 		pos := fmt.Sprintf("%s:%d", m[1], ln)
 		if okProof {
